@@ -1167,6 +1167,7 @@ class MRoute(Monitor):
         self.suffix = "-qq" if scenario.get("queue_type") == "quorum" else ""
         self.requests = {}       # correlation id -> connection name that issued it
         self.sync_children = set()
+        self.child_form = scenario.get("child_form")
 
     def _flag(self, w, key, kind, detail, arn=None, site=None, **extra):
         if key in self.flagged:
@@ -1207,6 +1208,9 @@ class MRoute(Monitor):
                 if rk == self.shared:
                     if name:
                         self._flag(w, ("shared", arn), "transition_event_on_shared_queue", "an event for state %r was published to the shared queue" % name, arn, op.get("site"), state=name)
+                    elif conn != "env" and str(w.cur_kind).startswith("timer") and ":execution:c:" in str(arn) and self.child_form in ("sync", "sync2", "sdk", "sync-timeout", "sync-nested", "sync-terminated", "sync-map"):
+                        # the launch of a synchronous child (.sync, .sync:2, startSyncExecution) must stay with the launching instance
+                        self._flag(w, ("synclaunch", arn), "sync_child_launch_on_shared_queue", "instance %s launched a synchronous child execution through the shared queue" % self._inst_id(w, conn), arn, op.get("site"))
                 else:
                     iid = self._inst_id(w, conn)
                     if conn != "env" and rk != self.shared + "-" + str(iid):
@@ -1215,6 +1219,8 @@ class MRoute(Monitor):
                         self._flag(w, ("apiinst", arn), "start_event_not_on_shared_queue", "StartExecution put the start event on %s" % rk, arn, op.get("site"))
                     elif not name and conn != "env":
                         self.sync_children.add(arn)
+                        if self.child_form == "start" and ":execution:c:" in str(arn):
+                            self._flag(w, ("asynclaunch", arn), "async_child_launch_on_instance_queue", "an asynchronous child execution (startExecution) was launched through %s instead of the shared queue" % rk, arn, op.get("site"))
                     if not name and conn == "env":
                         self._flag(w, ("envinst", arn), "start_event_not_on_shared_queue", "a start event was put on %s" % rk, arn, None)
                 if not name and rk != self.shared and conn != "env" and arn not in self.owner:
